@@ -51,6 +51,9 @@ func equivalent(a, b any) string {
 func c12Run(c *core.Ctx, idx int) {
 	r := c.Rng
 	nat := c12Gen.Gen(r)
+	if SpiceErrs(uint64(c.Seed), idx, nat) {
+		c.Count("trees.with-left-over-errors")
+	}
 	if sp := core.NewRng(core.Mix(uint64(c.Seed)+0x5b1ce, uint64(idx))); true && sp.Chance(1, 6) {
 		// (own PRNG stream, so that the rest of the case is what it was without this step)
 		if did := Spice(sp, nat, sp.Chance(1, 2), sp.Chance(1, 2), sp.Chance(1, 2)); did != "" {
